@@ -41,6 +41,16 @@ static inline void vn_read(const char *name, void *p, size_t n)
     fclose(f);
     fprintf(stderr, "replay: input %s not in snapshot, using 0\n", name);
 }
+static inline void vn_read_quiet(const char *name, void *p, size_t n)
+{
+    memset(p, 0, n);
+    FILE *f = fopen(vn_snapshot_path, "r");
+    if (!f) return;
+    char key[256]; unsigned long long val;
+    while (fscanf(f, "%255s %llu", key, &val) == 2)
+        if (!strcmp(key, name)) { memcpy(p, &val, n < sizeof(val) ? n : sizeof(val)); break; }
+    fclose(f);
+}
 static inline void vn_read_arr(const char *name, void *p, size_t esz, size_t cnt)
 {
     char key[300];
